@@ -22,7 +22,8 @@
 #include <sys/stat.h>
 
 #define too_deep_save_error() \
-    error("Mappings and/or arrays nested too deep (%d) for save_object\n", MAX_SAVE_SVALUE_DEPTH);
+    do { save_svalue_depth = 0; /* restore_*() take a non-zero counter for "sizes are precomputed" */ \
+         error("Mappings and/or arrays nested too deep (%d) for save_object\n", MAX_SAVE_SVALUE_DEPTH); } while (0)
 
 size_t tot_alloc_object = 0, tot_alloc_object_size = 0;
 
@@ -1264,6 +1265,7 @@ int restore_svalue (char *cp, svalue_t * v) {
   int ret;
   char c;
 
+  save_svalue_depth = 0;	/* may be left over from an operation that ended in error() */
   switch (c = *cp++)
     {
     case '"':
@@ -1326,6 +1328,7 @@ int safe_restore_svalue (char *cp, svalue_t * v) {
   char c;
 
   val.type = T_NUMBER;
+  save_svalue_depth = 0;	/* may be left over from an operation that ended in error() */
   switch (c = *cp++)
     {
     case '"':
